@@ -36,6 +36,9 @@ CLAIMED = {
  "C04": ("snapshot/ensure contract around the real get_fantasy_model + dense conditional oracle on the concatenated data + carried-cache oracle",
          "Runtime monitoring: before each real get_fantasy_model call the source model is snapshotted (state_dict, identity and values of training data, every tensor in the source strategy's memo caches, a probe prediction) and compared afterwards; the fantasy model's prediction is compared with the dense conditional on the concatenated data per fantasy batch element, and the caches it carries (stored mean_cache, covar_cache, root and root-inverse decompositions, training covariance) with the same quantities recomputed densely; patterns (m), (f,m) shared / per-fantasy inputs, (f,b,m); homoskedastic / fixed-noise (+learned) / Kronecker multitask likelihoods; depth 1-3; fast_pred_var and detach_test_caches on/off; IndependentModelList. Decides executed cells only.",
          "Noise of the concatenated data is assembled from public parameters; KISS-GP (WISKI) fantasies are exercised under C09.", "DESIGN.md §4 C04"),
+ "C03": ("history of public operations checked after every step against a sequential model (fresh model with the same state_dict and data); cache-event monitors",
+         "Runtime monitoring of operation histories: for ten model families (exact default / batched / KISS-GP fixed and data-dependent grid / SGPR; SVGP whitened, unwhitened, mean-field, batch-decoupled; LMC multitask) every sequence of the statement's operations up to length 2 (thorough: 3 for three exact families) and sampled sequences up to length 8 is executed on the real objects; after every step the prediction (two settings tuples) must equal that of a freshly constructed model holding the same state_dict and data. Monitors on memoize._add_to_cache and every _clear_cache stamp cache events with the history step for the violation report. Decides executed histories only.",
+         "Both sides run the library's own algorithm (staleness, not correctness, is decided here; correctness is C01/C14); variational families start from initialised variational parameters.", "DESIGN.md §4 C03"),
 }
 NOT_YET = "check not built yet in this round (see DESIGN.md §9 build order); not claimed until its monitor exists and is silent on the unchanged tree"
 
